@@ -136,6 +136,7 @@ type Host struct {
 	up       bool
 	Accepts  []time.Time // arrival times of connection attempts (C16 backoff)
 	HostID   primitive.UUID
+	DC       string // data center of this host ("" = the cluster's)
 }
 
 type Conn struct {
@@ -680,7 +681,11 @@ func (c *Conn) systemRows(v primitive.ProtocolVersion, peers bool) message.Messa
 				enc(datacodec.Varchar, cl.CQLVersion, v), enc(datacodec.Varchar, fmt.Sprint(int(v)), v))
 		}
 		hid := h.HostID
-		r = append(r, enc(datacodec.Inet, ip, v), enc(datacodec.Varchar, cl.DC, v), enc(datacodec.Varchar, "r1", v),
+		dc := cl.DC
+		if h.DC != "" {
+			dc = h.DC
+		}
+		r = append(r, enc(datacodec.Inet, ip, v), enc(datacodec.Varchar, dc, v), enc(datacodec.Varchar, "r1", v),
 			enc(setOfVarchar, []string{fmt.Sprint(h.Idx * 1000)}, v), enc(datacodec.Varchar, cl.ReleaseVer, v),
 			enc(datacodec.Uuid, &hid, v), enc(datacodec.Uuid, &hid, v))
 		if cl.DSEVersion != "" {
